@@ -223,10 +223,23 @@ def main():
         c = dict(c)
         if pid in SYSTEM:
             c["text"] += (" In addition the behaviours of the composite specification FsSystem.tla (two sessions in which current "
-                          "schema, DML, failing statements, transactions, session variables, execute_string scripts and no-op'd "
-                          "statements meet; the whole projected state is observed through both connections after every step) are "
-                          "replayed on the code, judged by TLC, and the rejected steps attributed to this property are reported.")
+                          "schema, DML incl. UPDATE / multi-row INSERT / failing executemany, statements failing for what they name or "
+                          "for their shape, transactions, session variables, execute_string scripts, no-op'd statements, DDL on a second "
+                          "table seen through three catalog views, a result set held open on its cursor, and an instance on a db_path "
+                          "shut down and opened again meet; the whole projected state is observed through both connections after every "
+                          "step) are replayed on the code, judged by TLC, and the rejected steps attributed to this property are reported.")
             c["technique"] += "; behaviours of the composite TLA+ specification replayed and judged by TLC"
+        if pid == "C17":
+            c["text"] += (" In addition the walks of the composite specification FsSystem.tla are driven through the HTTP server with "
+                          "the real connector (two logins to the shared instance) and, the same walks, in process; the whole projected "
+                          "state is observed through both sessions after every step and judged by TLC; a step rejected over HTTP in a "
+                          "behaviour accepted in process is reported.")
+            c["technique"] += "; walks of the composite TLA+ specification replayed over HTTP and in process, judged by TLC"
+        if pid == "C18":
+            c["text"] += (" In addition walks of the composite specification FsSystem.tla run on an instance with a db_path that is shut "
+                          "down and opened again every sixth operation (open transactions, pending DDL and open results included): "
+                          "what was committed is found and usable, nothing else is; judged by TLC step by step.")
+            c["technique"] += "; walks of the composite TLA+ specification with shut-down / re-open steps replayed and judged by TLC"
         if pid in PASSIVE:
             c["text"] += (" The executions of the repository's own test-suite, recorded passively (one event per public call), are "
                           "validated step by step by TLC against this property's clauses of the composite trace specification FakeSnow.tla.")
@@ -266,7 +279,7 @@ def main():
 
 
 NA = {}
-SYSTEM = {"C03", "C04", "C06", "C07", "C13", "C15", "C16"}     # harness/core.py SYSTEM_PROPS
+SYSTEM = {"C03", "C04", "C05", "C06", "C07", "C09", "C13", "C15", "C16"}     # harness/core.py SYSTEM_PROPS (C18: its own text)
 PASSIVE = {"C03", "C04", "C05", "C06", "C07"}                  # harness/core.py PASSIVE_PROPS
 
 if __name__ == "__main__":
